@@ -185,6 +185,9 @@ type Result struct {
 	SimTime     int64
 	Switches    int
 	Log         []string
+	// Leftover: daemon tasks that were still blocked when the root had returned
+	// (Config.DaemonsOK); they have been unwound
+	Leftover int
 }
 
 // Run executes root as task 0 (plus everything it spawns) until all tasks have
@@ -215,9 +218,23 @@ func (s *Sim) Run(root func()) Result {
 	<-done
 	s.wg.Wait() // visible: every task's writes -> caller
 	cur = nil
+	if s.leftover > 0 {
+		leftoverRuns++
+	}
 	return Result{Outcome: s.outcome, Detail: s.detail, Fingerprint: s.hash, Events: s.Seq,
-		SimTime: s.Now, Switches: s.switches, Log: s.log}
+		SimTime: s.Now, Switches: s.switches, Log: s.log, Leftover: s.leftover}
 }
+
+// leftoverRuns counts the phases of this OS process that ended with daemon
+// tasks still blocked (Config.DaemonsOK). Those tasks are unwound, but whatever
+// package-level state of the code under test refers to them (a started
+// sync.Once, a channel they served) stays behind: the process no longer
+// resembles a fresh one, and the harness re-checks in a fresh process whatever
+// it observes afterwards.
+var leftoverRuns int64
+
+// LeftoverRuns reports how many phases of this process left daemons behind.
+func LeftoverRuns() int64 { return leftoverRuns }
 
 // startScheduler exists so that the scheduler goroutine's creation stack names
 // it: a race report involving that goroutine is a harness artefact.
